@@ -110,6 +110,30 @@
         }
     }
 
+    /// C13: a disk-only (phantom) entry with several handles leaves exactly once, when the LAST handle drops
+    fn phantom_leaves_once(found: &mut Vec<String>) {
+        use foyer_common::properties::Properties as _;
+        let rec = Arc::new(Rec::default());
+        let cache: RawCache<Fifo<u64, u64, TestProperties>, ModHasher, HashTableIndexer<Fifo<u64, u64, TestProperties>>> = RawCache::new(RawCacheConfig {
+            capacity: 4, shards: 1, eviction_config: FifoConfig::default(), hash_builder: Default::default(),
+            weighter: Arc::new(|_, _| 1), filter: Arc::new(|_, _| true), event_listener: Some(rec.clone()), metrics: Arc::new(Metrics::noop()),
+        });
+        let h1 = cache.insert_with_properties(7, 7, TestProperties::default().with_phantom(true));
+        let h2 = h1.clone();
+        drop(h1);
+        // (the phantom insert itself reports `Remove` for the record it did not retain; the hand-off event is `Evict`)
+        let early: Vec<_> = rec.left.lock().unwrap().iter().filter(|e| e.0 == Event::Evict).cloned().collect();
+        if !early.is_empty() {
+            found.push(format!("WITNESS drop_of_a_non_last_handle_has_no_effects :: fifo: h1 = insert_with_properties(7, phantom); h2 = h1.clone(); drop(h1) => listener already saw {early:?} while h2 is alive"));
+            return;
+        }
+        drop(h2);
+        let all: Vec<_> = rec.left.lock().unwrap().iter().filter(|e| e.0 == Event::Evict).cloned().collect();
+        if all != vec![(Event::Evict, 7, 7)] {
+            found.push(format!("WITNESS phantom_last_drop_notifies_evict_once :: fifo: phantom insert(7) with two handles, both dropped => listener saw {all:?}"));
+        }
+    }
+
     #[test]
     fn verif_witness_shard() {
         let seed: u64 = std::env::var("VERIF_SEED").ok().and_then(|s| s.parse().ok()).unwrap_or(0);
@@ -120,6 +144,7 @@
             run::<Fifo<u64, u64, TestProperties>>("fifo", FifoConfig::default(), seed.wrapping_add(1), &mut f);
             if f.is_empty() { run::<Lru<u64, u64, TestProperties>>("lru", LruConfig::default(), seed.wrapping_add(2), &mut f); }
             if f.is_empty() { pinned_by_lookup(&mut f); }
+            if f.is_empty() { phantom_leaves_once(&mut f); }
             f
         });
         match r {
